@@ -649,7 +649,8 @@ fn cmd_emit(a: &Args) {
         let inputs = gen_inputs(fam, &mut r, per, &seeds);
         for input in inputs {
             let cfg = if stream == "lex" { Cfg::default() } else { Cfg::random(&mut r) };
-            let well_formed = matches!(fam.as_str(), "grammar" | "layout" | "seeds" | "seeds_sample" | "regions" | "mlsfam");
+            let well_formed = matches!(fam.as_str(), "grammar" | "layout" | "seeds" | "seeds_sample" | "regions" | "mlsfam")
+                && !(fam.starts_with("seeds") && oracles::has_unterminated_token(&input));
             let mut cursors = vec![];
             if oracle_list.iter().any(|o| o == "c15") {
                 let n = r.below(5);
